@@ -59,7 +59,9 @@ def run(ck):
     n = 1500 if ck.tier == 'quick' else 30000
     seen_exc = collections.Counter()
     for i in range(n):
-        if i % 6 == 5:
+        if i < len(fuzzcmd.CORPUS):
+            argv = list(fuzzcmd.CORPUS[i])
+        elif i % 6 == 5:
             argv, meta = cmdgen.gen_cmdline(rng)
         else:
             argv = fuzzcmd.gen(rng)
